@@ -28,6 +28,14 @@ ASSUMPTIONS = [
 
 
 MUTANTS = [
+    ("fitted components filtered by the region a second time",
+     "AegeanTools/source_finder.py",
+     "        # Write the output to the output file",
+     "        if global_data.region is not None and len(sources) > 0:\n"
+     "            within = global_data.region.sky_within(\n"
+     "                [s.ra for s in sources], [s.dec for s in sources], degin=True)\n"
+     "            sources = [s for s, w in zip(sources, within) if w]\n"
+     "        # Write the output to the output file", "C11-R9"),
     ("region trimmed to an approximate image footprint",
      "AegeanTools/source_finder.py",
      "        self.global_data.psfhelper = self.global_data.wcshelper\n",
@@ -338,6 +346,31 @@ def run(ctx):
     ctx.check("C11-R4", fs, "region and wcs passed to find_islands", okc,
               "find_sources_in_image must hand global_data.region and a wcs "
               "helper to find_islands", node=calls[0] if calls else fs.node)
+    # ---------------------------------------------------------------- R9
+    ctx.rule("C11-R9", "the region selects ISLANDS and nothing else: in "
+             "source_finder the membership test (sky_within) is asked only "
+             "by the island finders, about island pixels -- no function "
+             "downstream of the fit consults the region again (a second "
+             "filter on fitted positions drops components of a straddling "
+             "island whose peak lies outside)")
+    ALLOWED9 = {"find_islands", "_gen_flood_wrap"}
+    n9 = 0
+    for q_, f_ in sorted(prog.functions.items()):
+        if not f_.module.endswith("source_finder"):
+            continue
+        uses = [c for c in walk_no_nested(f_.node) if isinstance(c, ast.Call)
+                and isinstance(c.func, ast.Attribute) and
+                c.func.attr == "sky_within"]
+        n9 += 1
+        ctx.check("C11-R9", f_, "membership asked only by the island "
+                  "finders: %s (%d call(s))" % (f_.short, len(uses)),
+                  not uses or f_.name in ALLOWED9,
+                  "%s asks the region about positions of its own (%s): the "
+                  "restricted run is no longer the unrestricted run filtered "
+                  "by island membership" %
+                  (f_.short, norm(uses[0], 60) if uses else ""),
+                  node=uses[0] if uses else f_.node)
+    ctx.floor("C11-R9", n9, 12, "functions of source_finder")
     # ---------------------------------------------------------------- R6
     ctx.rule("C11-R6", "the membership answer the island filter relies on "
              "sees every stored level of the region (1..maxdepth-1 are "
